@@ -118,7 +118,8 @@ def main():
     cov["theorems"] = thms
 
     # ---- 2. the tie to the code + monitors
-    ctx = dict(pid=pid, tier=tier, seed=seed, spec=spec, proof_ok=proof_ok, replay=args.replay)
+    ctx = dict(pid=pid, tier=tier, seed=seed, spec=spec, proof_ok=proof_ok, replay=args.replay,
+               known_sigs={k["signature"] for k in load_known() if k["property"] == pid and k.get("status") == "known"})
     try:
         binary, build_s = build_harness()
         ctx["binary"] = binary
